@@ -68,8 +68,11 @@ def cases(ctx):
         progs.append(("stmt-jump", prog([j.format(J=kind) + ";"])))
         progs.append(("stmt-jump-long", prog([j.format(J=kind).replace("c == 2", "c == 4999").replace("c != 2", "c != 4999").replace("2 =>", "4999 =>") + ";"], 5000).replace("  push(obs, c);\n", "")))
     # assignment to something that cannot be assigned to: rejected, or balanced — never a stack slot per execution
-    for tgt in ("f2(1, 2)", "c + f2(1, 2)", "[c]", "1", "(c)", "-c", "!c", "f2"):
+    for tgt in ("f2(1, 2)", "c + f2(1, 2)", "[c]", "1", "(c)", "-c", "!c", "f2", "$1", "-f2(1, 2)", "~c", "-a[0]", "!a[1]", "$c", "\"s\"", "null", "map {}", "fn() {}"):
         progs.append(("odd-assignment-long", prog([f"{tgt} = 3;"], 5000).replace("  push(obs, c);\n", "")))
+    # `$n` outside a filter (no current packet): whatever it yields, evaluating it must leave the stack as a one-value expression does
+    for st in ("$0;", "let t = $1;", "f2($0, $1);", "[$0, $2];", "$3 == null;", "if $0 { 1; }"):
+        progs.append(("odd-assignment-long", prog([st], 5000).replace("  push(obs, c);\n", "")))
     for s in gen_lang.programs(rng, ctx.scale(1500, 60000), max_stmts=10):
         progs.append(("generated", s))
     srcs = [s for _, s in progs]
